@@ -226,6 +226,7 @@ func (g *Gen) newCtx(fn *ssa.Function, fc *FuncContract, mode Mode) *FnCtx {
 	c.entry = Heap{}
 	c.strLits = map[string]string{}
 	c.writes = map[*ssa.BasicBlock]map[string]bool{}
+	c.cellWrites = map[*ssa.BasicBlock]map[ssa.Value]bool{}
 	c.used = map[string]bool{}
 	c.usedContracts = map[string]bool{}
 	c.usedPure = map[string]bool{}
@@ -251,6 +252,7 @@ func (c *FnCtx) resetPass() {
 	c.ord = map[string]int{}
 	c.allocs = nil
 	c.localCells = nil
+	c.allocOf = map[string]ssa.Value{}
 	c.refVals = nil
 	c.retCount = 0
 	c.calleeOrd = map[string]int{}
@@ -592,6 +594,13 @@ func (c *FnCtx) assignOrdinals() {
 	number := func(es []ent, out map[ssa.Instruction]int) {
 		sort.SliceStable(es, func(i, j int) bool {
 			pi, pj := es[i].in.Pos(), es[j].in.Pos()
+			// instructions without a position (the implicit return at the end of a function) come last
+			if pi == 0 {
+				pi = 1 << 30
+			}
+			if pj == 0 {
+				pj = 1 << 30
+			}
 			if pi != pj {
 				return pi < pj
 			}
